@@ -508,6 +508,62 @@ ChebT1Consistent(deg_) ==
     \A a_ \in 0..deg_ : QMul(<<2, 1>>, Functional("legendre", NoPar, FamPoly("chebT1", NoPar, a_))) = ChebInt(a_)
 
 (***************************************************************************)
+(* 7b. The request and the integration functional.                         *)
+(*                                                                         *)
+(* A case [rule, n, par, base] denotes ONE mathematical rule.  How the     *)
+(* request is spelled in the host language is immaterial to it: arguments  *)
+(* by position or by keyword, the optional parameter omitted when it has   *)
+(* the declared default value, n given as a Python int or as a NumPy       *)
+(* integer scalar, the parameter given as int / float / NumPy scalar /     *)
+(* 0-d array of the same value, and the same request made again after the  *)
+(* caller has overwritten the arrays returned the first time (a rule owns  *)
+(* no state that survives a call).  Every applicable form must return the  *)
+(* rule of the case.  "ref" is the reference spelling of the harness       *)
+(* (n and base rule by position, parameter by keyword, Python int/float).  *)
+(*   when: "always" | "par" (the rule takes a parameter) | "integral" (a   *)
+(*   real-valued parameter whose value is an integer) | "default" (the     *)
+(*   parameter of the case equals the default declared by the signature)   *)
+(***************************************************************************)
+CForm(name_, n_, style_, par_, when_, scribble_) ==
+    [name |-> name_, n |-> n_, style |-> style_, par |-> par_, when |-> when_, scribble |-> scribble_]
+CallForms == <<
+    CForm("positional",  "int",    "pos", "same",    "par",      FALSE),
+    CForm("keywords",    "int",    "kw",  "same",    "always",   FALSE),
+    CForm("omitted",     "int",    "ref", "omit",    "default",  FALSE),
+    CForm("n-int64",     "int64",  "ref", "same",    "always",   FALSE),
+    CForm("n-int32",     "int32",  "ref", "same",    "always",   FALSE),
+    CForm("n-uint64",    "uint64", "ref", "same",    "always",   FALSE),
+    CForm("par-int",     "int",    "ref", "int",     "integral", FALSE),
+    CForm("par-int64",   "int",    "ref", "int64",   "integral", FALSE),
+    CForm("par-float64", "int",    "ref", "float64", "par",      FALSE),
+    CForm("par-0d",      "int",    "ref", "array0d", "par",      FALSE),
+    CForm("again",       "int",    "ref", "same",    "always",   TRUE)>>
+\* dflt_: the default of the optional parameter as declared by the constructor's signature
+\* (observed by the harness; judged admissible by OneDAudit), <<0, 0>> when there is none
+FormApplies(f_, c_, dflt_) ==
+    CASE f_.when = "always" -> TRUE
+      [] f_.when = "par" -> ParKind(c_.rule) # "none"
+      [] f_.when = "integral" -> ParKind(c_.rule) \in {"alpha", "step", "rho"} /\ c_.par[2] = 1
+      [] f_.when = "default" -> ParKind(c_.rule) # "none" /\ c_.par = dflt_
+\* sizes at which the forms are replayed (all small sizes, odd/even pairs below every 32)
+FormN(n_) == n_ <= 16 \/ (n_ % 32) \in {0, 31}
+FormsOf(c_, dflt_) == IF FormN(c_.n) THEN {q_ \in 1..Len(CallForms) : FormApplies(CallForms[q_], c_, dflt_)} ELSE {}
+
+\* The exactness obligations are claims about the functional
+\*    integrate(f_1, ..., f_m) = sum_i w_i f_1(x_i) ... f_m(x_i)
+\* of the grid object (observe_at: OneDGrid.integrate).  Every obligation "test function p_k
+\* against the weight function W" is judged on the weighted sum formed from .points/.weights,
+\* and the functional must return that same number in two spellings: "product" (one array
+\* p_k W) and "factors" (the two arrays p_k and W); for the orthonormalised families
+\* additionally "square": the SAME array p_k passed twice together with W, for 2k <= nominal
+\* degree, expected 1 (p_k^2 is a polynomial of degree 2k; int W p_k^2 = h_k is the norm law
+\* checked by FamilyOrthogonal) - an exactness obligation of its own.
+IntegrateForms == <<[name |-> "product", arity |-> 1], [name |-> "factors", arity |-> 2],
+                    [name |-> "square", arity |-> 3]>>
+Normalised(r_) == Family(r_) \notin {"none", "sine"} /\ Fam(Family(r_), NoPar).normalise
+SquareCount(r_, n_) == IF Normalised(r_) THEN (Degree(r_, n_) \div 2) + 1 ELSE 0
+
+(***************************************************************************)
 (* 8. Cases of the tier and the emitted data                               *)
 (***************************************************************************)
 ParSeq(r_) == CASE ParKind(r_) = "alpha" -> AlphaSeq
@@ -564,9 +620,11 @@ FamEntry(f_, al_) ==
 \* sine family: test functions sin(m pi (x+1)/2), m = 1..n; exact integral (4/(m pi)) [m odd]
 SineEntry == [test |-> Sin(Div(Mul(Mul(VK, Pi), Add(VX, CI(1))), CI(2))),
               expOdd |-> Div(CI(4), Mul(VK, Pi)), expEven |-> CI(0)]
+\* (the family "cc" has n-1 panels: it starts at n = 2, the other two at n = 1)
+LemmaNs(g_) == SelectSeq(NSeq, LAMBDA n_ : n_ <= MaxChebN /\ (g_ = "cc" => n_ >= 2))
 LemmaTable ==     \* the assumed discrete sums, for the numerical cross-check of the harness
-    LET ns == SelectSeq(NSeq, LAMBDA n_ : n_ <= MaxChebN) IN
     [g_ \in {"f1", "f2", "cc"} |->
+        LET ns == LemmaNs(g_) IN
         [q_ \in 1..Len(ns) |-> [n |-> ns[q_], sums |-> [a_ \in 1..(4 * ns[q_] + 5) |-> DSum(g_, ns[q_], a_ - 1)]]]]
 AngleCases == ConcatCases(AngleSeq, 1)
 RationalCases == ConcatCases(RationalSeq, 1)
@@ -587,7 +645,10 @@ Emitted ==
                     FamEntry("chebU", NoPar)>> \o
                   [q_ \in 1..Len(AlphaSeq) |-> FamEntry("laguerre", AlphaSeq[q_])],
      sine |-> SineEntry,
-     lemma |-> LemmaTable]
+     lemma |-> LemmaTable,
+     callForms |-> CallForms,
+     formN |-> [q_ \in 1..Len(NSeq) |-> [n |-> NSeq[q_], forms |-> FormN(NSeq[q_])]],
+     integrateForms |-> IntegrateForms]
 EmitOK == JsonSerialize(OutFile, <<Emitted>>)
 
 (***************************************************************************)
